@@ -300,6 +300,8 @@ fn param_grid(r: &mut Rng, extra: usize) -> Vec<D> {
     for &a in &[0.5, 1.0, 1.5, 2.0, 2.5, 3.0, 5.0, 20.0] { for &m in &[1e-3, 0.5, 1.0, 7.0, 1e3] { v.push(Pareto(a, m)); } }
     for &l in &rates { v.push(Exponential(l)); }
     for &l in &[1e-3, 0.05, 0.5, 1.0, 2.0, 9.5, 10.0, 37.0, 100.0, 200.0, 1e3] { v.push(Poisson(l)); }
+    // rates where exp(-lambda) is subnormal or 0 while the masses in the lower tail are still normal doubles
+    for &l in &[700.0, 720.0, 744.0, 765.0, 800.0] { v.push(Poisson(l)); }
     for &(a, b) in &[(0.0, 1.0), (-2.0, 6.0), (1e3, 1e3 + 1e-3), (-1e3, 1e3), (0.25, 0.5)] { v.push(Uniform(a, b)); }
     for &p in &[0.0, 1e-3, 0.3, 0.5, 0.9, 1.0] { v.push(Bernoulli(p)); }
     for &n in &[0u64, 1, 2, 5, 15, 40, 62, 67, 68, 70, 100, 333, 1000] { for &p in &[0.0, 1e-3, 0.3, 0.5, 0.9, 1.0] { v.push(Binomial(n, p)); } }
@@ -353,6 +355,8 @@ fn points_disc(d: &D, r: &mut Rng, n: usize) -> Vec<i64> {
             for _ in 0..n { p.push(r.range(0, nn.max(1))); p.push((nn as f64 * pp + r.uniform(-8.0, 8.0) * sd) as i64); } }
         DiscreteUniform(a, b) => { p.extend([a, b, a - 1, b + 1, (a + b) / 2, i32::MAX as i64]); for _ in 0..n { p.push(r.range(a - 3, b + 3)); } }
         Poisson(l) => { let sd = l.sqrt().max(1.0); p.extend([l as i64, (l + 10.0 * sd) as i64, (l + 30.0 * sd) as i64, 170, 171, 172]);
+            // the far lower tail (small counts under a large rate) and the neighbourhood of k = 20
+            p.extend([3, 5, 10, 19, 20, 21, 22, 40, (l - 10.0 * sd).max(0.0) as i64, (l - 20.0 * sd).max(0.0) as i64]);
             for _ in 0..2 * n { p.push(((l + r.uniform(-8.0, 12.0) * sd).max(0.0)) as i64); } }
         _ => panic!("not discrete"),
     }
@@ -385,7 +389,8 @@ pub fn oracle(tier: &str, seed: u64) -> (u64, Vec<Finding>) {
                     Ok(got) => {
                         let err = (got - want).abs();
                         if !(got >= 0.0) { fail(format!("{}:pmf-negative-or-nan", nm), 1.0, format!("{}.pmf({}) = {:e} (textbook {:e})", d.show(), k, got, want), format!("{} k={}", d.show(), k)); }
-                        else if !(err <= 1e-9 * want + 1e-200) {
+                        // (absolute floor 1e-300: a mass that is a normal double is demanded to 1e-9 relative; below that the reference itself underflows)
+                        else if !(err <= 1e-9 * want + 1e-300) {
                             let class = if want == 0.0 { "pmf-nonzero-outside-support" } else { "pmf-differs-from-textbook" };
                             fail(format!("{}:{}", nm, class), err / want.max(1e-300), format!("{}.pmf({}) = {:e}, textbook mass {:e}", d.show(), k, got, want), format!("{} k={}", d.show(), k));
                         }
